@@ -25,10 +25,16 @@ const connected = "200 Connected to Go RPC"
 // DialHTTP connects to an HTTP RPC server at the specified network address
 // listening on the default HTTP RPC path.
 // Source credit: net/rpc package
-func DialHTTP(network, address string) (*rpc.Client, error) {
-	conn, err := net.Dial(network, address)
+// The timeout bounds connecting and the HTTP handshake that follows it, a
+// server that accepts the connection and never answers would otherwise hold
+// the caller for ever.
+func DialHTTP(network, address string, timeout time.Duration) (*rpc.Client, error) {
+	conn, err := net.DialTimeout(network, address, timeout)
 	if err != nil {
 		return nil, err
+	}
+	if timeout > 0 {
+		conn.SetDeadline(time.Now().Add(timeout))
 	}
 	if _, err := io.WriteString(conn, "CONNECT "+rpc.DefaultRPCPath+" HTTP/1.0\n\n"); err != nil {
 		conn.Close()
@@ -39,6 +45,8 @@ func DialHTTP(network, address string) (*rpc.Client, error) {
 	// before switching to RPC protocol.
 	resp, err := http.ReadResponse(bufio.NewReader(conn), &http.Request{Method: "CONNECT"})
 	if err == nil && resp.Status == connected {
+		// The deadline was for the handshake only
+		conn.SetDeadline(time.Time{})
 		/* HERE: the codec is swapped out for msgpack. We create this
 		 * scaffholding just to be able to call using custom codec. */
 		codec := NewMsgpackCodec(conn)
